@@ -250,7 +250,12 @@ impl Model for CModel {
 /// grows through several resizes): 20 algorithms inserted in three orders, the full state oracle
 /// (entries, text form, round trip) after every step, then removed.
 pub fn long_histories(acc: &mut Acc) -> Value {
-    let algs: Vec<String> = (0..20).map(|i| format!("{}{}", ["sha", "md", "blake", "x-"][i % 4], i)).collect();
+    // 20 synthetic names and the algorithm names in real use (with the spellings that differ only by a
+    // dash, a digit suffix or a prefix: `sha-256`/`sha256`/`sha2`, `sha3-256`, `md5`/`md5-sess`)
+    let mut algs: Vec<String> = (0..20).map(|i| format!("{}{}", ["sha", "md", "blake", "x-"][i % 4], i)).collect();
+    for real in ["sha-256", "sha256", "sha-1", "sha1", "sha2", "sha3-256", "sha-512", "sha512", "md5", "md5-sess", "blake2b", "blake2", "crc32", "sha--1"] {
+        algs.push(real.to_owned());
+    }
     let mut lower = algs.clone();
     lower.sort();
     let m = CModel { prop: "C12", spellings: algs.clone(), lower, acts: vec![] };
